@@ -118,7 +118,7 @@ def callee_alloc_programs():
     pre = ['ফাং ব্যস্ত(ন) {', '    নাম ই = ০;', '    লুপ {', '        যদি ই >= ন {', '            থামাও;', '        }', '        ই = ই + ১;', '        নাম আ = [ই, ই];', '    } আবার;', '    ফেরত ন;', '} ফেরত;',
            'ফাং প্রথম(ক, খ) {', '    ফেরত ক;', '} ফেরত;', 'ফাং বানাও(ন) {', '    নাম ফল = [];', '    নাম ই = ০;', '    লুপ {', '        যদি ই >= ন {', '            থামাও;', '        }', '        _লিস্ট-পুশ(ফল, [ই]);', '        ই = ই + ১;', '    } আবার;', '    ফেরত ফল;', '} ফেরত;']
     uses = [['দেখাও প্রথম([১, ২, ৩], ব্যস্ত(৪০০));'], ['দেখাও [৭, ৮] + [ব্যস্ত(৪০০)];'], ['দেখাও [[১, ২, ৩], ব্যস্ত(৪০০)];'], ['দেখাও প্রথম(@{"ক" -> ১,}, ব্যস্ত(৪০০));'],
-            ['দেখাও _লিস্ট-লেন(বানাও(৩) + বানাও(৬০০));'], ['নাম ধ = [[১], [২]];', 'দেখাও [ধ[০] + [৩], ব্যস্ত(৪০০), ধ];'], ['দেখাও @{"a" -> [১, ২], "b" -> ব্যস্ত(৪০০),}["a"];']]
+            ['দেখাও _লিস্ট-লেন(বানাও(৩) + বানাও(৬০০));'], ['নাম ধ = [[১], [২]];', 'দেখাও [ধ[০] + [৩], ব্যস্ত(৪০০), ধ];'], ['নাম রক = @{"a" -> [১, ২], "b" -> ব্যস্ত(৪০০),};', 'দেখাও রক["a"];']]
     return [{'src': prog(pre + u + ['দেখাও "পরে";']), 'kind': 'callee-alloc', 'budget': 30000} for u in uses]
 
 
